@@ -11,7 +11,9 @@ Every function of virtual.c that writes one of these is modelled exactly:
 `libxmp_virt_on` (table set-up), `libxmp_virt_reset`, `libxmp_virt_resetvoice`,
 `free_voice`, `alloc_voice`, `libxmp_virt_resetchannel`, `libxmp_virt_setvol`
 (release of a silent background voice), `check_dct`, `libxmp_virt_setpatch`
-(incl. the NNA relocation loop), `libxmp_virt_pastnote` (CUT action).
+(incl. the NNA relocation loop), `libxmp_virt_pastnote` (CUT resets voices, OFF / FADE leave the
+tables alone), `libxmp_virt_setnna`, `libxmp_virt_setsmp`, `libxmp_virt_queuepatch` (the branch
+that is not a `setpatch`).  Not modelled: `libxmp_virt_off` (ends the life of the tables).
 The mixer side effects on a voice (`libxmp_mixer_setvol`, `…_setpatch`,
 `…_setnote`) are reduced to the fields above.
 
@@ -208,6 +210,28 @@ def pastNoteCut (s : VState) (chn : Int) : Nat → Int → VState
     pastNoteCut s1 chn n (c + 1)
 termination_by n _ => n
 
+/-- `libxmp_virt_setnna` (`quirkVirtual` = `HAS_QUIRK(QUIRK_VIRTUAL)`): the pending new-note action
+of the channel's voice -/
+def setNna (s : VState) (chn nna : Int) (quirkVirtual : Bool) : VState :=
+  if quirkVirtual = false then s else
+  let voc := mapVirtChannel s chn
+  if voc < 0 then s else s.setVoice voc { s.voice voc with act := nna }
+
+/-- `libxmp_virt_setsmp` (HMN / MED synth instruments): `libxmp_mixer_setpatch(voc, smp, 0)` stores
+the new sample and zeroes the voice volume unless the voice already plays `smp` -/
+def setSmp (s : VState) (chn smp : Int) : VState :=
+  let voc := mapVirtChannel s chn
+  if voc < 0 then s else
+  if (s.voice voc).smp = smp then s else s.setVoice voc { s.voice voc with smp := smp, vol := 0 }
+
+/-- `libxmp_virt_queuepatch` on a channel that has a voice (`map > FREE`): the sample is queued in
+the mixer, only the instrument number of the voice changes (when `ins >= 0`).  On a channel
+without a voice the call is a `setPatch` (with `smp >= 0`) or does nothing. -/
+def queueIns (s : VState) (chn ins : Int) : VState :=
+  if chn < 0 ∨ chn ≥ s.virtChannels then s else
+  let voc := (s.chan chn).map
+  if voc > -1 ∧ ins ≥ 0 then s.setVoice voc { s.voice voc with ins := ins } else s
+
 /-- One table-changing call of virtual.c, as spied by the harness. -/
 inductive Op where
   | reset
@@ -216,6 +240,12 @@ inductive Op where
   | setVol (chn vol : Int) (muted : Bool)
   | setPatch (chn ins smp key nna dct dca : Int)
   | pastNoteCut (chn : Int)
+  /-- `libxmp_virt_pastnote` with `VIRT_ACTION_OFF` / `VIRT_ACTION_FADE` (or any other action
+  value): `libxmp_player_set_release` / `…_set_fadeout` flag the channel, the tables stay -/
+  | pastNoteOther (chn act : Int)
+  | setNna (chn nna : Int) (quirkVirtual : Bool)
+  | setSmp (chn smp : Int)
+  | queueIns (chn ins : Int)
   deriving Repr, Inhabited
 
 def step (s : VState) : Op → VState
@@ -225,6 +255,10 @@ def step (s : VState) : Op → VState
   | .setVol c v m => setVol s c v m
   | .setPatch c i sm k n d a => (setPatch s c i sm k n d a).1
   | .pastNoteCut c => pastNoteCut s c (s.virtChannels - s.numTracks).toNat s.numTracks
+  | .pastNoteOther _ _ => s
+  | .setNna c n q => setNna s c n q
+  | .setSmp c sm => setSmp s c sm
+  | .queueIns c i => queueIns s c i
 
 /-- number of voices in use -/
 def usedCount (s : VState) : Nat := s.voices.countP (fun v => v.chn ≠ -1)
